@@ -189,3 +189,52 @@ Proof. intros Hne Hin Hnn H0. unfold n_edge_array.
     destruct (select_iface idx ne e) as [|x t] eqn:E.
     + exfalso. unfold select_iface in E. destruct (ne <? Z.of_nat (length e)); [destruct (map _ _); discriminate|congruence].
     + clear. revert x; induction t as [|y t IH]; intros x; [left; reflexivity|]. right. apply IH. Qed.
+
+(* ---------------------------------------------------------------- consistency clauses of C09 on the resampled mesh *)
+From Coq Require Import FinFun.
+Lemma number_from_keys {A} (l : list A) i : map fst (number_from i l) = map (fun k => i + Z.of_nat k) (seq 0 (length l)).
+Proof. revert i; induction l as [|x t IH]; intros i; [reflexivity|]. cbn [number_from map length seq fst]. f_equal; [lia|].
+  rewrite IH. rewrite <- seq_shift, map_map. apply map_ext. intros k. lia. Qed.
+Lemma number_from_In {A} (l : list A) i k x : In (k, x) (number_from i l) -> In x l.
+Proof. revert i; induction l as [|y t IH]; intros i; [intros []|]. cbn [number_from]. intros [H | H]; [inversion H; left; reflexivity|right; eapply IH; exact H]. Qed.
+Lemma consecutive_pairs_In l a b : In (a, b) (consecutive_pairs l) -> In a l /\ In b l.
+Proof. induction l as [|x t IH]; [intros []|]. destruct t as [|y t']; [intros []|]. cbn [consecutive_pairs]. intros [H | H].
+  - inversion H; subst. split; [left; reflexivity|right; left; reflexivity].
+  - destruct (IH H) as [H1 H2]. split; right; assumption. Qed.
+
+(* the new mesh edges are stored under the ids 0, 1, 2, ... (each under its own id, no id twice) *)
+Theorem resample_edge_ids st narr :
+  map fst (es (resample_core st narr)) = map Z.of_nat (seq 0 (length (es (resample_core st narr)))) /\ NoDup (map fst (es (resample_core st narr))).
+Proof. unfold resample_core. cbn [es]. set (l := concat (map consecutive_pairs narr)).
+  assert (E : map fst (number_from 0 l) = map Z.of_nat (seq 0 (length l))) by (rewrite number_from_keys; apply map_ext; intros; lia).
+  assert (L : length (number_from 0 l) = length l) by (rewrite <- (map_length fst), E, map_length, seq_length; reflexivity).
+  rewrite L. split; [exact E|]. rewrite E. apply FinFun.Injective_map_NoDup; [intros x y H; lia|apply seq_NoDup]. Qed.
+
+(* every new mesh edge joins two vertices that are named by one resampled interface, and both exist afterwards
+   (given that every vertex an interface names existed before) *)
+Theorem resample_edges_reference_vertices st narr i a b :
+  (forall v, In v (concat narr) -> In v (map fst (vs st))) ->
+  In (i, (a, b)) (es (resample_core st narr)) ->
+  (exists e, In e narr /\ In a e /\ In b e) /\ In a (map fst (vs (resample_core st narr))) /\ In b (map fst (vs (resample_core st narr))).
+Proof. intros Hex H. unfold resample_core in H. cbn [es] in H. apply number_from_In in H. apply in_concat in H. destruct H as [ps [H1 H2]].
+  apply in_map_iff in H1. destruct H1 as [e [<- He]]. apply consecutive_pairs_In in H2. destruct H2 as [Ha Hb].
+  assert (Ua : In a (concat narr)) by (apply in_concat; exists e; split; assumption).
+  assert (Ub : In b (concat narr)) by (apply in_concat; exists e; split; assumption).
+  split; [exists e; repeat split; assumption|].
+  assert (K : forall v, In v (concat narr) -> In v (map fst (vs (resample_core st narr)))).
+  { intros v Hv. specialize (Hex v Hv). apply in_map_iff in Hex. destruct Hex as [[k pos] [Hk Hin]]. simpl in Hk. subst k.
+    apply in_map_iff. exists (v, pos). split; [reflexivity|]. apply resample_vertices. split; assumption. }
+  split; apply K; assumption. Qed.
+
+(* every vertex of a surviving cell exists afterwards (given that it existed before); no cell is left empty; a cycle without repeated
+   vertex stays without repeated vertex *)
+Lemma filter_NoDup {A} (f : A -> bool) l : NoDup l -> NoDup (filter f l).
+Proof. induction 1 as [|x t Hx Hn IH]; simpl; [constructor|]. destruct (f x); [constructor; [rewrite filter_In; tauto|exact IH]|exact IH]. Qed.
+Theorem resample_cells_consistent st narr cid cyc : In (cid, cyc) (cs (resample_core st narr)) ->
+  exists old, In (cid, old) (cs st) /\ cyc <> [] /\ (NoDup old -> NoDup cyc) /\
+    (forall v, In v cyc -> In v old /\ (In v (map fst (vs st)) -> In v (map fst (vs (resample_core st narr))))).
+Proof. unfold resample_core. cbn [cs vs]. rewrite filter_In, in_map_iff. intros [[[c old] [Heq Hin]] Hne]. cbn [fst snd] in *.
+  inversion Heq; subst. exists old. split; [exact Hin|]. split; [intros E; rewrite E in Hne; discriminate|]. split; [apply filter_NoDup|].
+  intros v Hv. apply filter_In in Hv. destruct Hv as [Hv Hk]. split; [exact Hv|]. intros Hex.
+  apply in_map_iff in Hex. destruct Hex as [[k pos] [Hk' Hin']]. simpl in Hk'. subst k. apply in_map_iff. exists (v, pos). split; [reflexivity|].
+  apply filter_In. split; [exact Hin'|exact Hk]. Qed.
